@@ -271,12 +271,32 @@ def intOfStr (s : Str) : Except Exc Int :=
 /-- `max(xs)` (`ValueError` on the empty list) -/
 def maxOf : List Int → Except Exc Int
   | [] => .error .valueError
-  | x :: xs => .ok (xs.foldl max x)
+  | x :: xs =>
+    match maxOf xs with
+    | .error _ => .ok x                              -- `xs` is empty
+    | .ok y => .ok (if y ≤ x then x else y)
 
 /-- `min(xs)` (`ValueError` on the empty list) -/
 def minOf : List Int → Except Exc Int
   | [] => .error .valueError
-  | x :: xs => .ok (xs.foldl min x)
+  | x :: xs =>
+    match minOf xs with
+    | .error _ => .ok x
+    | .ok y => .ok (if x ≤ y then x else y)
+
+/-- `set(xs)` as the list of its distinct values (only `len(set(xs))` and `sorted(set(xs))` are translated, so
+    the order is immaterial; a value is kept at its last occurrence) -/
+def distinct : List Int → List Int
+  | [] => []
+  | x :: xs => if xs.contains x then distinct xs else x :: distinct xs
+
+/-- `enumerate(xs, k)` as a list of pairs -/
+def enumFrom {α : Type} : Nat → List α → List (Nat × α)
+  | _, [] => []
+  | k, x :: xs => (k, x) :: enumFrom (k + 1) xs
+
+/-- `enumerate(xs)` -/
+def enumerate {α : Type} (xs : List α) : List (Nat × α) := enumFrom 0 xs
 
 /-- insertion into an ascending list without duplicates -/
 def insertSorted (x : Int) : List Int → List Int
